@@ -48,6 +48,8 @@ type Action struct {
 	Spread uint8       `json:"spread,omitempty"`
 	Radial bool        `json:"radial,omitempty"`
 	Stops  []StopSpec  `json:"stops,omitempty"`
+	// Draw: the drawing ops of a "path" action (all 18 verbs, grid coordinates)
+	Draw []ops.Op `json:"draw,omitempty"`
 }
 
 type Case struct {
@@ -128,9 +130,14 @@ func apply(g *generate.Generator, a Action) error {
 		g.NSel()
 	case "path":
 		g.StartPath(a.Adj, f(a, 0), f(a, 1))
-		g.AbsLineTo(f(a, 2), f(a, 3))
-		g.RelLineTo(f(a, 4), f(a, 5))
-		g.AbsQuadTo(f(a, 0), f(a, 3), f(a, 2), f(a, 1))
+		if len(a.Draw) == 0 {
+			g.AbsLineTo(f(a, 2), f(a, 3))
+			g.RelLineTo(f(a, 4), f(a, 5))
+			g.AbsQuadTo(f(a, 0), f(a, 3), f(a, 2), f(a, 1))
+		}
+		for _, o := range a.Draw {
+			ops.Apply(g, o)
+		}
 		g.ClosePathEndPath()
 	case "linear":
 		return g.SetLinearGradient(f(a, 0), f(a, 1), f(a, 2), f(a, 3), generate.GradientSpread(a.Spread), stops)
@@ -332,7 +339,22 @@ func genAction(t *rapid.T) Action {
 	case 8:
 		return Action{K: "read"}
 	case 9:
-		return Action{K: "path", Adj: gen.Adj(t, "adj"), F: []ops.F32{grid(t, "x0"), grid(t, "y0"), grid(t, "x1"), grid(t, "y1"), grid(t, "dx"), grid(t, "dy")}}
+		a := Action{K: "path", Adj: gen.Adj(t, "adj"), F: []ops.F32{grid(t, "x0"), grid(t, "y0"), grid(t, "x1"), grid(t, "y1"), grid(t, "dx"), grid(t, "dy")}}
+		if rapid.Bool().Draw(t, "allverbs") {
+			n := rapid.IntRange(1, 6).Draw(t, "ndraw")
+			for i := 0; i < n; i++ {
+				k := rapid.SampledFrom(gen.DrawVerbs).Draw(t, "verb")
+				num := func(t *rapid.T, l string) float32 { return gen.Grid(t, l, 30) }
+				o := gen.DrawOp(t, k, num, "d")
+				if k == ops.AbsArcTo || k == ops.RelArcTo {
+					o.F[0] = ops.F32(float32(rapid.IntRange(1*4, 30*4).Draw(t, "rx")) / 4)
+					o.F[1] = ops.F32(float32(rapid.IntRange(1*4, 30*4).Draw(t, "ry")) / 4)
+					o.F[2] = ops.F32(float32(rapid.IntRange(0, 7).Draw(t, "rot")) / 8)
+				}
+				a.Draw = append(a.Draw, o)
+			}
+		}
+		return a
 	}
 	a := Action{Spread: uint8(rapid.IntRange(0, 3).Draw(t, "spread")), Stops: genStopsSpec(t)}
 	nz := func(l string) ops.F32 {
@@ -404,6 +426,12 @@ func TestPipelines(t *testing.T) {
 				cs := model.ModelCSel()
 				if cs >= 10 && int(cs) < 10+len(a.Stops) {
 					labels["helper-error-path:CSEL-in-stop-range"] = true
+				}
+			case "path":
+				for _, o := range a.Draw {
+					if (o.K == ops.AbsArcTo || o.K == ops.RelArcTo) && o.LargeArc != o.Sweep {
+						labels["arc-with-asymmetric-flags"] = true
+					}
 				}
 			case "reset":
 				labels["reset-mid-sequence"] = true
